@@ -69,7 +69,7 @@ def _c17_case(c):
 # ---- in-Coq re-evaluation of a sample (thorough tier): cross-checks extraction + OCaml driver ----
 
 _VM_PRELUDE = """From Coq Require Import QArith.
-From Oras Require Import Base.Prelude Generated.GC17 Model.Retry Proofs.Retry.
+From Oras Require Import Base.Prelude Base.RetryTypes Generated.GC17 Model.Retry Proofs.Retry.
 Open Scope Z_scope.
 Inductive rshow := SResp (c : Z) | STok (c : Z) | SErr (a b c : bool) | SPred | SCtx | SPanic | SNotRew | SGetBody | SFuel.
 Definition show_res (r : result) : rshow :=
@@ -253,7 +253,7 @@ def _c17_vm_sample(d, tier, coq, build, want=300):
 CONFIG = {
     "properties_file": "Properties/C17.v",
     "proof_files": ["Base/Prelude.v", "Proofs/Retry.v"],
-    "model_files": ["Generated/GC17.v", "Model/Retry.v"],
+    "model_files": ["Base/RetryTypes.v", "Generated/GC17.v", "Model/Retry.v"],
     "extract": "XC17.v",
     "ml_main": "c17_main.ml",
     "harness": "c17",
